@@ -56,20 +56,20 @@ def sample_list(samples, cap=4):
 # --------------------------------------------------------------------------- history-based checks
 HIST_PLAN = {
     # prop: (quick cases, thorough cases, rule, floors, level)
-    "C01": dict(quick=4200, thorough=210000,
+    "C01": dict(quick=42000, thorough=1400000,
                 rule="seeded random call histories (8-80 calls; uniform / churn / re-add-after-bulk-removal generators; start sizes 0,1,2,3,5; "
                      "vertex arguments biased to existing edges, self-loops and recently touched vertices) on LabeledDirectedGraph<L> for "
                      "L in NoLabel,int,unsigned,double,char,string,struct; after EVERY call all structural observers are compared with a set-of-pairs model. "
                      "A case is one history; distinct_nontrivial counts distinct sequences of model states among histories of >= 8 calls",
                 floors={"calls_total": 50000, "calls_removeVertexFromEdgeList": 500, "calls_clearEdges": 100, "calls_removeSelfLoops": 300,
                         "calls_resize": 300, "noop_exactness_checks": 5000, "obs_hasEdge": 500000}),
-    "C02": dict(quick=4200, thorough=210000,
+    "C02": dict(quick=42000, thorough=1400000,
                 rule="as C01 on LabeledUndirectedGraph<L>; every call names its pair in a random orientation; model = set of unordered pairs; "
                      "observers additionally include getDegree with both self-loop conventions, getDegrees, both adjacency matrices (symmetry), "
                      "edges() yielding first<=second once per pair",
                 floors={"calls_total": 50000, "calls_removeVertexFromEdgeList": 500, "calls_clearEdges": 100, "calls_removeSelfLoops": 300,
                         "noop_exactness_checks": 5000, "obs_hasEdge": 500000}),
-    "C03": dict(quick=6000, thorough=300000,
+    "C03": dict(quick=18000, thorough=600000,
                 rule="random histories on labelled directed and undirected graphs (labels int,unsigned,double,char,string,struct; every label value unique "
                      "per call so a stale label is never mistaken for the right one); after every call getEdgeLabel (throwing and non-throwing), "
                      "hasEdge(i,j,label) are compared for EVERY ordered pair with a map model; counters label_reads_after_* show reads of pairs "
@@ -77,25 +77,25 @@ HIST_PLAN = {
                 floors={"calls_total": 50000, "label_reads_after_removeEdge": 1000, "label_reads_after_removeSelfLoops": 300,
                         "label_reads_after_removeVertexFromEdgeList_as_source": 300, "label_reads_after_removeVertexFromEdgeList_as_destination": 300,
                         "label_reads_after_clearEdges": 300, "label_reads_after_recreation": 1000, "rejected_setEdgeLabel_on_missing_edge": 300}),
-    "C04": dict(quick=3000, thorough=160000,
+    "C04": dict(quick=30000, thorough=1000000,
                 rule="random histories on DirectedMultigraph and UndirectedMultigraph mixing addEdge/addMultiedge/addReciprocal*/removeEdge/removeMultiedge/"
                      "setEdgeMultiplicity (0 included)/removeSelfLoops/removeVertexFromEdgeList/clearEdges/resize; after every call getEdgeMultiplicity for all "
                      "ordered pairs, hasEdge, getEdgeNumber, getTotalEdgeNumber, degrees and adjacency matrix are compared with a map pair->multiplicity",
                 floors={"calls_total": 40000, "calls_setEdgeMultiplicity(0)": 200, "calls_removeMultiedge": 1000, "calls_clearEdges": 50,
                         "calls_removeVertexFromEdgeList": 300, "mult_reads_absent_pair": 50000}),
-    "C05": dict(quick=3000, thorough=160000,
+    "C05": dict(quick=12000, thorough=500000,
                 rule="random histories on DirectedWeightedGraph and UndirectedWeightedGraph; two weight alphabets: exact dyadic k/8 (total weight must "
                      "match the model sum EXACTLY) and rounding (random doubles, tolerance 1e-9*(1+sum|w| ever added)); getEdgeWeight (both modes, both "
                      "orientations), getTotalWeight, getWeightMatrix and the structural observers compared after every call",
                 floors={"calls_total": 40000, "calls_setEdgeWeight": 2000, "total_weight_exact_comparisons": 10000, "total_weight_tolerance_comparisons": 10000,
                         "calls_clearEdges": 50, "calls_removeVertexFromEdgeList": 300}),
-    "C06": dict(quick=5400, thorough=270000,
+    "C06": dict(quick=54000, thorough=1800000,
                 rule="pairs of histories: A = random history; B = different random history followed by a shuffled repair sequence reaching the same "
                      "denoted graph; C = straight build in random order/orientation. A==B==C checked in both operand orders with != as negation, "
                      "reflexivity, copy construction / assignment, then the copy is perturbed by exactly one edge / label / vertex and must compare "
                      "unequal while its source stays equal and unchanged. All eight classes, seven label kinds",
                 floors={"equality_checks_expected_equal": 20000, "equality_checks_expected_unequal": 8000, "pairs_where_a_history_removed_edges": 2000}),
-    "C16": dict(quick=5400, thorough=270000,
+    "C16": dict(quick=54000, thorough=1800000,
                 rule="histories mixing forced and unforced insertions (same label for every copy of a pair), removeEdge and removeDuplicateEdges on the "
                      "simple/labelled classes - neighbour multisets, edges(), getEdgeNumber, adjacency matrix, hasEdge compared with a multiset model after "
                      "every call, and after each removeDuplicateEdges operator== against an unforced replay; forced insertions followed by "
@@ -129,7 +129,7 @@ def run_c07(prop, tier, seed):
     t0 = time.time()
     binary = V.build_engine(REJECT, "asan")
     # 12 classes x 8 state variants per round
-    cases = 12 * 8 * (6 if tier == "quick" else 250)
+    cases = 12 * 8 * (12 if tier == "quick" else 400)
     res = V.run_sharded(prop, binary, [], cases, seed, tier, V.NCPU, 900 if tier == "quick" else 7200, replay_dir(prop), tag="reject",
                         isolate_args=["--x-isolate", "1"])
     c = res.counters
@@ -262,7 +262,7 @@ def run_paths(prop, tier, seed):
 
 
 IO_PLAN = {
-    "C13": dict(level="exploration", quick=6000, thorough=300000,
+    "C13": dict(level="exploration", quick=36000, thorough=1200000,
                 rule="(a) round trip: seeded random graphs (zero vertices, no edges, loops, isolated tail beyond the largest used index) on Labeled(Un)DirectedGraph with "
                      "labels NoLabel,int,double(%.17g),string(inner blanks, '#', empty),struct(own codec); the written file is parsed independently (header comment, "
                      "one 'src dst[ label]' line per edge), loaded, loaded size = 1+largest index, then resized and compared observer by observer, label by label and "
@@ -271,14 +271,14 @@ IO_PLAN = {
                      "after blanks, start with '#'; numeric-looking names included): indices by first appearance, names[index(x)]==x, edges under the map",
                 floors={"text_round_trips": 1500, "well_formed_files_loaded": 1500, "name_files_loaded": 1500, "comment_lines_generated": 500,
                         "whitespace_runs_longer_than_one": 3000, "zero_vertex_graphs": 30, "graphs_with_isolated_tail": 200, "files_without_final_newline": 100}),
-    "C14": dict(level="exploration", quick=6000, thorough=300000,
+    "C14": dict(level="exploration", quick=40000, thorough=1200000,
                 rule="seeded random graphs x label kinds none,uint8,int8,char,uint16,int32,uint32,int64,uint64,float,double x directed/undirected: bytes of the written "
                      "file compared with the monitor's own encoding (u32le src, u32le dst, label little-endian per enumerated edge), length = edges x record size, loaded "
                      "twice (deterministic), resized, compared with the model and operator== the original; hand-made files written by the monitor's encoder with records "
                      "shuffled / undirected pairs flipped must load to the same graph; every writer and loader (text ones too) on unopenable paths (missing directory, "
                      "over-long name, empty name, directory for writers, removed file for loaders) must throw std::runtime_error",
                 floors={"binary_round_trips": 4000, "hand_made_files_loaded": 2000, "open_failure_calls": 1500, "file_bytes_compared_with_independent_encoding": 100000}),
-    "C15": dict(level="fault_enumeration", quick=4000, thorough=200000,
+    "C15": dict(level="fault_enumeration", quick=4000, thorough=120000,
                 rule="(a) crash points: for seeded valid binary files (label sizes 0,1,2,4,8 bytes; directed and undirected) EVERY cut offset 0..length is loaded; the "
                      "loader must throw a std::exception or return exactly the complete records before the cut (vertices, edges, labels). (b) malformed text from a "
                      "grammar of mutations (blank / one-token / blank-only lines, '#' after blanks, non-numeric, negative, -1, overflowing, '12abc', hex, NUL and stray "
@@ -314,6 +314,60 @@ def run_io(prop, tier, seed):
     if prop == "C14":
         assume.append("this host is little-endian: the byte-swapping branch for big-endian hosts is not executable here; 'any host' is observed as this host plus an independent encoder")
     return V.conclude(prop, tier, seed, plan["level"], res, coverage, assume, plan["floors"], t0)
+
+
+RACE = {"name": "race", "units": [("race.cpp", [])]}
+
+
+def run_c18(prop, tier, seed):
+    t0 = time.time()
+    res = V.ShardResult()
+    cases = 160 if tier == "quick" else 4000
+    ops = 60 if tier == "quick" else 150
+    per = {}
+    with cf.ThreadPoolExecutor(V.NCPU) as pool:
+        bins = {fl: V.build_engine(RACE, fl, pool) for fl in ("tsan", "clang-tsan")}
+    for fl in ("tsan", "clang-tsan"):
+        r = V.run_sharded(prop, bins[fl], ["--x-ops", str(ops)], cases, seed, tier, 4, 1800 if tier == "quick" else 14400, replay_dir(prop), tag="race-" + fl)
+        for v in r.viols:
+            v = dict(v)
+            v["key"] = fl + "/" + v["key"]
+            res.viols.append(v)
+        if r.inconclusive and not res.inconclusive:
+            res.inconclusive = "[%s] %s" % (fl, r.inconclusive)
+        for k, v in r.counters.items():
+            if k.endswith("_max"):
+                res.counters[k] = max(res.counters.get(k, 0), v)
+            else:
+                res.counters[k] = res.counters.get(k, 0) + v
+        res.distinct.update(r.distinct)
+        res.states.update(r.states)
+        res.samples += r.samples[:2]
+        per[fl] = {"thread_ops_executed": r.counters.get("thread_ops_executed", 0), "threads_started": r.counters.get("threads_started", 0),
+                   "distinct_op_pairs_seen_overlapping": len(r.states), "tsan_reports": sum(1 for v in r.viols if "tsan" in v["key"])}
+    c = res.counters
+    coverage = {
+        "evaluations": int(2 * cases),
+        "distinct_nontrivial": len(res.distinct),
+        "rule": "a case = one shared graph (6-12 vertices; classes LabeledDirectedGraph<int>, LabeledUndirectedGraph<string>, DirectedGraph, UndirectedGraph, both "
+                "multigraphs, both weighted graphs) x a thread count in {2,3,4,8,16} x a seed; every thread runs a seeded random sequence over ALL const entry points "
+                "of the class (observers, labels/weights/multiplicities, vertex and edge iteration, ==/!=, copy construction and assignment, reversal and conversions, "
+                "getSubgraph(WithRemap), the six BFS searches, Dijkstra, operator<<, text/binary writers to per-thread files). Built with g++ and clang++ "
+                "-fsanitize=thread, halt_on_error=1. Oracles: zero ThreadSanitizer reports and every result equal to the single-threaded baseline. The harness uses "
+                "relaxed atomics only, so readers share no happens-before edge and TSan reports a write in a const member against any other thread's access whether or "
+                "not they physically overlapped; physical overlap is measured as well (distinct op pairs seen in flight together). distinct_nontrivial = distinct "
+                "(class, thread count, seed) cases",
+        "samples": sample_list(res.samples, 4),
+        "per_compiler": per,
+        "distinct_op_pairs_seen_overlapping": len(res.states),
+        "counters": {k: v for k, v in sorted(c.items())},
+        "exhaustive": False,
+    }
+    floors = {"thread_ops_executed": 20000, "overlap_samples": 5000, "cases_with_16_threads": 10, "cases_with_2_threads": 10}
+    return V.conclude(prop, tier, seed, "exploration", res, coverage, [
+        "ThreadSanitizer (gcc 12 and clang 14 runtimes) detects the data races among the instrumented accesses it observes; libstdc++ itself is not instrumented",
+        "schedules are sampled: thread counts <= 16 on a 16-core machine; what generalises beyond them is TSan's happens-before analysis, not the interleavings seen",
+    ], floors, t0)
 
 
 # ---- C17: the valid workloads of C01-C16 in a matrix of build configurations
@@ -470,11 +524,13 @@ for p in PATHS_PLAN:
 for p in IO_PLAN:
     PROPS[p] = {"title": TITLES[p], "run": run_io, "engines": [("io", "asan")]}
 PROPS["C17"] = {"title": TITLES["C17"], "run": run_c17, "engines": [(e, f) for e in ("hist-lite", "shape-lite", "paths", "io-lite") for f in ("asan", "debug", "o2", "clang-asan")]}
+PROPS["C18"] = {"title": TITLES["C18"], "run": run_c18, "engines": [("race", "tsan"), ("race", "clang-tsan")]}
 PROPS["C07"] = {"title": TITLES["C07"], "run": run_c07, "engines": [("reject", "asan")]}
 
 
 for _e in LITE.values():
     ENGINES[_e["name"]] = _e
+ENGINES["race"] = RACE
 
 
 def build_all():
